@@ -1,5 +1,278 @@
 import NibabelModel.Model.C01
-/-! Props/C01 — the property theorems for C01 (statements + proofs; helper lemmas live in Lemmas/). -/
+import NibabelModel.Lemmas.C01
+import NibabelModel.Generated.C01FileTypes
+/-! Props/C01 — lossless voxel round-trip through every writable volume format (DESIGN.md §5 C01).
+
+  All statements are unbounded: any rank (≥ 1; the property speaks of 1–7 dims), any axis lengths
+  including 0 and 1, any component width and count, either byte order, any data offset not inside the
+  header, arbitrary header / footer bytes, arbitrary element bit patterns (NaN payloads, ±inf, −0.0 are
+  ordinary patterns).  Casts between different float widths and the codecs are parameters (see the
+  model header); the integer → integer cast is proved exact. -/
 namespace Nb.C01
+open Nb
+
+/-! ### byte codec -/
+
+/-- decode ∘ encode = id for every width, both byte orders, every in-range pattern -/
+theorem dec_enc (e : Endian) (w v : Nat) (h : v < 256 ^ w) : dec e (enc e w v) = v := by
+  rw [dec_enc_mod, Nat.mod_eq_of_lt h]
+
+example : dec .big (enc .big 2 0xBEEF) = 0xBEEF := dec_enc .big 2 0xBEEF (by decide)
+
+/-- an element of `k` components (`k = 2` complex, `3` RGB …) survives encode/decode in either order -/
+theorem decElem_encElem (e : Endian) (cw k : Nat) (x : Elem) (hx : ElemOK cw k x) :
+    decElem e cw k (encElem e cw x) = x := by
+  simpa using decElem_encElem_tail e cw k x [] hx
+
+example : ElemOK 4 2 [0x7fc00001, 0xff800000] := ⟨rfl, by decide⟩
+
+/-! ### what is stored -/
+
+/-- `stored_is_cast`: the bytes of the data region `[offset, offset + n·itemsize)` are exactly the
+    Fortran-order concatenation of the encodings of the elements — whatever `np.squeeze`, the
+    transposition and the slab loop of `_write_data` do. -/
+theorem stored_is_cast (h : List Nat) (offset : Nat) (e : Endian) (cw k : Nat) (shape : List Nat)
+    (A : List Nat → Elem) (hh : h.length ≤ offset) (hA : ∀ i ∈ enumF shape, ElemOK cw k (A i)) :
+    ((writeFile h offset e cw shape A).drop offset).take (shape.prod * (cw * k))
+      = (enumF shape).flatMap (fun i => encElem e cw (A i)) := by
+  unfold writeFile
+  rw [List.drop_left' (padTo_length offset h hh), ← writeData_eq]
+  exact List.take_of_length_le (by rw [writeData_length e cw k shape A hA]; exact Nat.le_refl _)
+
+example : ((writeFile [9, 9] 4 .big 2 [2, 1, 2] (fun i => [i.getD 0 0 + 16 * i.getD 2 0])).drop 4).take 8
+    = [0, 0, 0, 1, 0, 16, 0, 17] := by decide
+
+/-! ### round trip -/
+
+/-- `roundtrip_bytes`: for every shape of rank ≥ 1 (axes of length 0 and 1 included), every element
+    layout, byte order, offset ≥ header length and header bytes, reading the written file back gives the
+    same shape and the same elements (Fortran order), bit for bit. -/
+theorem roundtrip_bytes (h : List Nat) (offset : Nat) (e : Endian) (cw k : Nat) (shape : List Nat)
+    (A : List Nat → Elem) (hh : h.length ≤ offset) (hrank : shape ≠ []) (hcw : 0 < cw) (hk : 0 < k)
+    (hA : ∀ i ∈ enumF shape, ElemOK cw k (A i)) :
+    readData (writeFile h offset e cw shape A) offset e cw k shape = .ok (shape, (enumF shape).map A) := by
+  have := readData_block (padTo offset h) [] offset e cw k shape A (padTo_length offset h hh) hrank hcw hk hA
+  simpa [writeFile] using this
+
+example : readData (writeFile [1, 2, 3] 5 .little 1 [2, 0, 3] (fun _ => [7])) 5 .little 1 1 [2, 0, 3]
+    = .ok ([2, 0, 3], []) :=
+  roundtrip_bytes [1, 2, 3] 5 .little 1 1 [2, 0, 3] _ (by decide) (by decide) (by decide) (by decide)
+    (by intro i hi; exact ⟨rfl, by decide⟩)
+
+/-- the codecs enter only through their contract: any `compress`/`decompress` pair with
+    `decompress (compress b) = b` (gzip, bz2, zstd, identity) leaves the round trip intact — filename,
+    file-map, stream and bytes routes differ only in the sink the same bytes go to. -/
+theorem roundtrip_through_codec (compress decompress : List Nat → List Nat)
+    (hcodec : ∀ b, decompress (compress b) = b)
+    (h : List Nat) (offset : Nat) (e : Endian) (cw k : Nat) (shape : List Nat)
+    (A : List Nat → Elem) (hh : h.length ≤ offset) (hrank : shape ≠ []) (hcw : 0 < cw) (hk : 0 < k)
+    (hA : ∀ i ∈ enumF shape, ElemOK cw k (A i)) :
+    readData (decompress (compress (writeFile h offset e cw shape A))) offset e cw k shape
+      = .ok (shape, (enumF shape).map A) := by
+  rw [hcodec]; exact roundtrip_bytes h offset e cw k shape A hh hrank hcw hk hA
+
+example : readData (id (id (writeFile [] 0 .big 4 [1, 2] (fun i => [i.getD 1 0, 0x7fc00001])))) 0 .big 4 2 [1, 2]
+    = .ok ([1, 2], [[0, 0x7fc00001], [1, 0x7fc00001]]) :=
+  roundtrip_through_codec id id (fun _ => rfl) [] 0 .big 4 2 [1, 2] _ (by decide) (by decide) (by decide)
+    (by decide) (by decide)
+
+/-- element-wise form: the loaded array `np.ndarray(shape, dtype, buffer, order='F')` indexed at any
+    in-bounds multi-index `i` holds exactly the element that was saved at `i` -/
+theorem roundtrip_bytes_elementwise (h : List Nat) (offset : Nat) (e : Endian) (cw k : Nat) (shape : List Nat)
+    (A : List Nat → Elem) (hh : h.length ≤ offset) (hrank : shape ≠ []) (hcw : 0 < cw) (hk : 0 < k)
+    (hA : ∀ i ∈ enumF shape, ElemOK cw k (A i)) :
+    ∃ els, readData (writeFile h offset e cw shape A) offset e cw k shape = .ok (shape, els) ∧
+      ∀ i, InBounds shape i → loadedAt shape els i = A i := by
+  refine ⟨(enumF shape).map A, roundtrip_bytes h offset e cw k shape A hh hrank hcw hk hA, ?_⟩
+  intro i hi
+  unfold loadedAt
+  rw [List.getD_eq_getElem?_getD, List.getElem?_map, enumF_getElem?_ravelF shape i hi]
+  rfl
+
+example : InBounds [2, 1, 3] [1, 0, 2] := by decide
+
+/-- a file shorter than `offset + n·itemsize` is refused, never read back as different data -/
+theorem short_file_refused (file : List Nat) (offset : Nat) (e : Endian) (cw k : Nat) (shape : List Nat)
+    (hrank : shape ≠ []) (hn : shape.prod * (cw * k) ≠ 0)
+    (hshort : file.length < offset + shape.prod * (cw * k)) :
+    readData file offset e cw k shape = .error .short :=
+  readData_short file offset e cw k shape hrank hn hshort
+
+example : readData [1, 2, 3] 2 .little 1 1 [2] = .error .short :=
+  short_file_refused _ _ _ _ _ _ (by decide) (by decide) (by decide)
+
+/-- the ORIGINAL `array_from_file` (before `fix: array_from_file returns an empty array of the requested
+    shape`) collapsed every zero-size shape to `(0,)` -/
+theorem zero_size_orig_counterexample :
+    readDataOrig (writeFile [] 0 .little 2 [2, 0, 3] (fun _ => [0])) 0 .little 2 1 [2, 0, 3]
+      = .ok ([0], []) ∧
+    readData (writeFile [] 0 .little 2 [2, 0, 3] (fun _ => [0])) 0 .little 2 1 [2, 0, 3]
+      = .ok ([2, 0, 3], []) := by
+  constructor <;> rfl
+
+/-! ### integer → integer casts -/
+
+/-- `int_cast_exact`: when `scaling_needed()` answers False for an integer input and an integer
+    on-disk type, every value lies in the on-disk range and encode/decode returns it exactly
+    (unbounded `Int`: covers the uint64 / int64 comparisons Python must do with `int()`). -/
+theorem int_cast_exact (aS oS : Bool) (aw ow : Nat) (vals : List Int) (e : Endian) (how : 0 < ow)
+    (hin : ∀ v ∈ vals, InRange aS aw v)
+    (hsn : scalingNeededInt aS aw oS ow vals = .ok false) :
+    ∀ v ∈ vals, InRange oS ow v ∧ ofBits oS ow (dec e (enc e ow (toBits ow v))) = v := by
+  intro v hv
+  have hr : InRange oS ow v := by
+    rcases scalingNeededInt_false aS oS aw ow vals hsn with hc | hnil | hz | hrng
+    · exact canCast_int_range aS oS aw ow v hc (hin v hv)
+    · subst hnil; simp at hv
+    · have h1 := listMin_le vals v hv
+      have h2 := le_listMax vals v hv
+      have hv0 : v = 0 := by omega
+      subst hv0
+      have hp := pow256_pos (ow - 1)
+      have hM : 256 ^ ow = 256 ^ (ow - 1) * 256 := by
+        rw [← Nat.pow_succ]; congr 1; omega
+      have h2 : 2 ≤ 256 ^ ow := by rw [hM]; omega
+      unfold InRange intMin intMax
+      generalize 256 ^ ow = M at h2 ⊢
+      cases oS <;> simp only [if_true, if_false, Bool.false_eq_true] <;> omega
+    · have h1 := listMin_le vals v hv
+      have h2 := le_listMax vals v hv
+      exact ⟨Int.le_trans hrng.1 h1, Int.le_trans h2 hrng.2⟩
+  obtain ⟨hlt, hof⟩ := ofBits_toBits oS ow how v hr
+  exact ⟨hr, by rw [dec_enc e ow _ hlt, hof]⟩
+
+-- non-vacuity: int64 input holding the uint8 extremes, on-disk uint8
+example : ∀ v ∈ [255, 0, 17], InRange false 1 v ∧ ofBits false 1 (dec .big (enc .big 1 (toBits 1 v))) = v :=
+  int_cast_exact true false 8 1 [255, 0, 17] .big (by decide) (by decide) (by rfl)
+
+-- uint64 -> int64 with the extreme that fits, int64 -> uint8 in range
+example : scalingNeededInt false 8 true 8 [0, 9223372036854775807] = .ok false := by rfl
+example : scalingNeededInt true 8 false 1 [255, 0, 17] = .ok false := by rfl
+example : scalingNeededInt false 8 true 8 [9223372036854775808] = .ok true := by rfl
+
+/-! ### MGH -/
+
+/-- an MGH image (after the constructor's padding to 3-D) can be saved iff it is 3-D, or 4-D with more
+    than one frame -/
+theorem mgh_shape_accepted_iff (hdr ftr : List Nat) (cw : Nat) (shape : List Nat) (A : List Nat → Elem) :
+    (∃ f, mghWrite hdr ftr cw (mghImageShape shape) A = .ok f) ↔
+      (shape.length ≤ 3 ∨ (shape.length = 4 ∧ shape.getD 3 0 ≠ 1)) := by
+  match shape with
+  | [] => simp [mghWrite, mghHeaderShape, mghImageShape]
+  | [a] => simp [mghWrite, mghHeaderShape, mghImageShape]
+  | [a, b] => simp [mghWrite, mghHeaderShape, mghImageShape]
+  | [a, b, c] => simp [mghWrite, mghHeaderShape, mghImageShape]
+  | [a, b, c, d] =>
+      by_cases hd : d = 1
+      · simp [mghWrite, mghHeaderShape, mghImageShape, hd]
+      · simp [mghWrite, mghHeaderShape, mghImageShape, hd]
+  | a :: b :: c :: d :: x :: rest =>
+      simp [mghWrite, mghHeaderShape, mghImageShape]
+
+/-- KNOWN FINDING `mgh:single-frame-4d-shape`: a 4-D image whose last axis has length 1 is refused by
+    `MGHImage._write_data` ("Data should be shape (x, y, z)"), because the header forgets the axis -/
+theorem mgh_single_frame_4d_counterexample (hdr ftr : List Nat) (cw x y z : Nat) (A : List Nat → Elem) :
+    mghHeaderShape [x, y, z, 1] = .ok [x, y, z] ∧
+    mghWrite hdr ftr cw (mghImageShape [x, y, z, 1]) A = .error .headerData := by
+  simp [mghWrite, mghHeaderShape, mghImageShape]
+
+/-- `mgh_layout`: for every accepted shape the file is header (zero-filled to 284) ‖ big-endian data ‖
+    footer: the data reads back exactly from offset 284, the footer starts at
+    `get_footer_offset() = 284 + itemsize·n` and is intact, the header bytes are intact. -/
+theorem mgh_layout (hdr ftr : List Nat) (cw k : Nat) (shape : List Nat) (A : List Nat → Elem) (file : List Nat)
+    (hhdr : hdr.length ≤ mghDataOffset) (hcw : 0 < cw) (hk : 0 < k)
+    (hA : ∀ i ∈ enumF shape, ElemOK cw k (A i))
+    (hw : mghWrite hdr ftr cw shape A = .ok file) :
+    readData file mghDataOffset .big cw k shape = .ok (shape, (enumF shape).map A) ∧
+    file.drop (mghFooterOffset cw k shape) = ftr ∧
+    file.take hdr.length = hdr ∧
+    file.length = mghDataOffset + (cw * k) * shape.prod + ftr.length := by
+  unfold mghWrite at hw
+  split at hw
+  · simp at hw
+  · next hs hhs =>
+    split at hw
+    · simp at hw
+    · next hne =>
+      have hrank : shape ≠ [] := by
+        intro h0; subst h0; simp [mghHeaderShape] at hhs; subst hhs; simp at hne
+      have hfile : file = padTo mghDataOffset hdr ++ writeData .big cw shape A ++ ftr := by
+        simpa using hw.symm
+      have hpl := padTo_length mghDataOffset hdr hhdr
+      have hdl := writeData_length .big cw k shape A hA
+      subst hfile
+      refine ⟨readData_block _ ftr mghDataOffset .big cw k shape A hpl hrank hcw hk hA, ?_, ?_, ?_⟩
+      · have : (padTo mghDataOffset hdr ++ writeData .big cw shape A).length = mghFooterOffset cw k shape := by
+          simp [hpl, hdl, mghFooterOffset, Nat.mul_comm]
+        exact List.drop_left' this
+      · simp [padTo, List.append_assoc, List.take_left']
+      · simp [hpl, hdl, Nat.mul_comm, Nat.add_assoc]
+
+example : ∃ f, mghWrite [1] [2, 2] 2 [2, 1, 3] (fun i => [i.getD 2 0]) = .ok f := ⟨_, rfl⟩
+example : ∀ i ∈ enumF [2, 1, 3], ElemOK 2 1 ((fun i => [i.getD 2 0]) i) := by decide
+example : (∃ f, mghWrite [] [] 1 (mghImageShape [5, 4]) (fun _ => [0]) = .ok f) :=
+  (mgh_shape_accepted_iff [] [] 1 [5, 4] _).mpr (Or.inl (by decide))
+
+/-! ### codec choice by file name (over the regenerated tables) -/
+
+/-- `ImageOpener.compress_ext_map` as regenerated from the source -/
+def genTable : List (String × Codec) := codecTableOf Gen.compressExtMap
+
+/-- what a suffix is supposed to mean (hand-written, NOT derived from the source) -/
+def canonicalCodec (ext suf : String) : Codec :=
+  if suf = ".gz" then .gz else if suf = ".bz2" then .bz2 else if suf = ".zst" then .zst
+  else if suf = "" ∧ ext = ".mgz" then .gz else .raw
+
+/-- per-entry check evaluated on the generated table: the name tail `ext ++ suffix` has no slash, has a
+    dot, and its last extension looks up (through `compress_ext_map`, case rule included) the canonical
+    codec of the suffix -/
+def entryCheck (en : String × String × String × String) : Bool :=
+  let t := en.2.1.toList ++ en.2.2.1.toList
+  (rfind '/' t == none) &&
+    (match rfind '.' t with
+     | some d => codecOfExt genTable Gen.compressExtIcase (t.drop d) == canonicalCodec en.2.1 en.2.2.1
+     | none => false)
+
+/-- `codec_by_suffix`: for EVERY root path whose last component has a character other than '.', and
+    every (class, extension, compressed suffix) the image classes accept (regenerated table), the opener
+    chosen for `root ++ ext ++ suffix` is the canonical codec of the suffix: `.gz`/`.mgz` gzip, `.bz2`
+    bzip2, `.zst` zstd, anything else a plain file. -/
+theorem codec_by_suffix (root : List Char) (hroot : ∃ c ∈ baseName root, c ≠ '.') :
+    ∀ en ∈ Gen.dataFileNames,
+      codecFor genTable Gen.compressExtIcase (root ++ (en.2.1.toList ++ en.2.2.1.toList))
+        = canonicalCodec en.2.1 en.2.2.1 := by
+  intro en hen
+  have hall : ∀ en ∈ Gen.dataFileNames, entryCheck en = true := by decide
+  have hc := hall en hen
+  unfold entryCheck at hc
+  simp only [Bool.and_eq_true, beq_iff_eq] at hc
+  obtain ⟨hs, hm⟩ := hc
+  split at hm
+  · next d hd =>
+    unfold codecFor
+    rw [splitExt_append root _ d hroot hs hd]
+    simpa using hm
+  · simp at hm
+
+example : ∃ c ∈ baseName "/data/sub-01.anat/T1w".toList, c ≠ '.' := ⟨'T', by decide, by decide⟩
+example : ("MGHImage", ".mgz", "", "gz") ∈ Gen.dataFileNames := by decide
+example : ("Nifti1Pair", ".img", ".bz2", "bz2") ∈ Gen.dataFileNames := by decide
+
+/-- `codec_same_for_read_and_write`: the file object opened for writing (`'wb'`) and the one opened for
+    reading (`'rb'`) use the same codec — the canonical one — for every name of the table family. -/
+theorem codec_same_for_read_and_write (root : List Char) (hroot : ∃ c ∈ baseName root, c ≠ '.') :
+    ∀ en ∈ Gen.dataFileNames,
+      let name := root ++ (en.2.1.toList ++ en.2.2.1.toList)
+      (openerInit genTable Gen.compressExtIcase .wb name).1 = canonicalCodec en.2.1 en.2.2.1 ∧
+      (openerInit genTable Gen.compressExtIcase .rb name).1 = canonicalCodec en.2.1 en.2.2.1 := by
+  intro en hen
+  exact ⟨codec_by_suffix root hroot en hen, codec_by_suffix root hroot en hen⟩
+
+/-- the codec column of the regenerated name table (`compress_ext_map[suffix or extension]`) is the
+    canonical codec, and every codec name of `compress_ext_map` is one the model knows -/
+theorem table_codecs_canonical :
+    (∀ en ∈ Gen.dataFileNames, codecOfName en.2.2.2 = some (canonicalCodec en.2.1 en.2.2.1)) ∧
+    (∀ kv ∈ Gen.compressExtMap, (codecOfName kv.2).isSome = true) := by
+  decide
 
 end Nb.C01
